@@ -417,4 +417,148 @@ theorem pspecDecl_skeleton (c : Cfg) (ps : List (List Nat)) (pspecs : List (List
         exact hl
 
 
+theorem statDims_map_matOf (c : Cfg) (shape : List Nat) :
+    (statDims c shape).map (fun d => matOf c d d) = (initParam c shape).st := by
+  unfold statDims initParam
+  by_cases hs : skipParam c shape = true <;> simp [hs, List.map_map, Function.comp_def]
+
+/-- `computeStats` only reads the statistics list and `avg_grad` -/
+theorem computeStats_congr (c : Cfg) (shape : List Nat) (s t : PStats) (h1 : s.st = t.st) (h2 : s.ag = t.ag) :
+    computeStats c shape s = computeStats c shape t := by
+  unfold computeStats
+  rw [h1, h2]
+
+theorem transformGrad_local (c : Cfg) (shape : List Nat) (s : PStats) (h1 : s.ds = plainQV shape)
+    (h2 : s.dm = momQV c shape) (h3 : s.m = momQV c shape) :
+    transformGrad c shape s = .ok (plainQV shape, momQV c shape, momQV c shape) := by
+  unfold transformGrad
+  rw [h1, h2, h3]
+  by_cases hg : c.graftHasDiag = true
+  · simp [hg, plainQV, f32Leaf, momQV_shapeIs, bind, Except.bind, pure, Except.pure]
+  · have hg' : c.graftHasDiag = false := by simpa using hg
+    simp [hg', plainQV, f32Leaf, momQV_shapeIs, bind, Except.bind, pure, Except.pure]
+
+theorem shardedStepLocal_init (c : Cfg) (ms : Nat) (shape : List Nat) (ix : Nat) (hq : c.quant2 = false)
+    (hd : ∀ d ∈ statDims c shape, d ≤ ms) :
+    shardedStepLocal c ms (shape, localOf c shape ix) = .ok (localOf c shape ix) := by
+  unfold shardedStepLocal
+  have hst : ((localOf c shape ix).sizes.map fun d => Mat.plain (f32Leaf [min d ms, min d ms])) = (initParam c shape).st := by
+    rw [← statDims_map_matOf]
+    show (statDims c shape).map _ = _
+    apply List.map_congr_left
+    intro d hdm
+    simp [matOf, hq, Nat.min_eq_left (hd d hdm)]
+  have hcs := computeStats_congr c shape
+    { ds := (localOf c shape ix).ds, st := (localOf c shape ix).sizes.map fun d => Mat.plain (f32Leaf [min d ms, min d ms]),
+      pr := [], dm := (localOf c shape ix).dm, m := (localOf c shape ix).m, ag := (localOf c shape ix).ag, tm := (localOf c shape ix).tm }
+    (initParam c shape) hst rfl
+  have htg := transformGrad_local c shape
+    { ds := (localOf c shape ix).ds, st := (localOf c shape ix).sizes.map fun d => Mat.plain (f32Leaf [min d ms, min d ms]),
+      pr := [], dm := (localOf c shape ix).dm, m := (localOf c shape ix).m, ag := (localOf c shape ix).ag, tm := (localOf c shape ix).tm }
+    rfl rfl rfl
+  have hany : ((initParam c shape).st.any fun x => decide (x.dim0 > ms)) = false := by
+    rw [← statDims_map_matOf]
+    simp only [List.any_map, List.any_eq_false, Function.comp_def, matOf_dim0, decide_eq_true_eq]
+    intro d hdm
+    have := hd d hdm
+    omega
+  have hlen : (initParam c shape).st.length = (localOf c shape ix).sizes.length := by
+    rw [← statDims_map_matOf]; simp [localOf]
+  have htm : ¬ (c.trainMetrics ∧ (localOf c shape ix).tm ≠ some ⟨(localOf c shape ix).sizes.length, c.genFd⟩) := by
+    intro ⟨h1, h2⟩
+    apply h2
+    simp [localOf, metricsOf, h1]
+  simp only [hcs, computeStats_init, htg, bind, Except.bind, hq, Bool.false_eq_true, if_false, hany, hlen,
+    ne_eq, not_true_eq_false, htm, pure, Except.pure]
+  rfl
+
+
+theorem indexStarts_length (c : Cfg) : ∀ (ps : List (List Nat)) (k : Nat), (indexStarts c ps k).length = ps.length
+  | [], _ => rfl
+  | _ :: ss, k => by simp [indexStarts, indexStarts_length c ss]
+
+def localsOf (c : Cfg) (ps : List (List Nat)) (k : Nat) : List LocalStats :=
+  (ps.zip (indexStarts c ps k)).map fun x => localOf c x.1 x.2
+
+theorem localsOf_cons (c : Cfg) (s : List Nat) (ss : List (List Nat)) (k : Nat) :
+    localsOf c (s :: ss) k = localOf c s k :: localsOf c ss (k + (statDims c s).length) := by
+  simp [localsOf, indexStarts]
+
+theorem localsOf_length (c : Cfg) (ps : List (List Nat)) (k : Nat) : (localsOf c ps k).length = ps.length := by
+  simp [localsOf, indexStarts_length]
+
+theorem mapE_locals (c : Cfg) (ms : Nat) (hq : c.quant2 = false) :
+    ∀ (ps : List (List Nat)) (k : Nat), (∀ s ∈ ps, ∀ d ∈ statDims c s, d ≤ ms) →
+      mapE (shardedStepLocal c ms) (ps.zip (localsOf c ps k)) = .ok (localsOf c ps k)
+  | [], _, _ => rfl
+  | s :: ss, k, h => by
+    rw [localsOf_cons]
+    simp only [List.zip_cons_cons, mapE, bind, Except.bind,
+      shardedStepLocal_init c ms s k hq (h s List.mem_cons_self),
+      mapE_locals c ms hq ss _ (fun t ht => h t (List.mem_cons_of_mem _ ht)), pure, Except.pure]
+
+theorem sumSizes_locals (c : Cfg) : ∀ (ps : List (List Nat)) (k : Nat),
+    sumSizes (localsOf c ps k) = (ps.flatMap (statDims c)).length
+  | [], _ => rfl
+  | s :: ss, k => by
+    rw [localsOf_cons]
+    have ih := sumSizes_locals c ss (k + (statDims c s).length)
+    simp only [sumSizes, List.map_cons, List.foldr_cons] at ih ⊢
+    rw [ih]
+    simp [localOf, List.flatMap_cons]
+
+theorem le_globalDims (c : Cfg) (ps : List (List Nat)) :
+    ∀ s ∈ ps, ∀ d ∈ statDims c s, d ≤ (globalDims c ps).2 := by
+  intro s hs d hd
+  have hmem : d ∈ ps.flatMap (statDims c) := List.mem_flatMap.mpr ⟨s, hs, hd⟩
+  have hle := le_maxList hmem
+  unfold globalDims
+  simp only []
+  split
+  · rename_i h0; simp only []; omega
+  · exact hle
+
+/-- one sharded update of the initial sharded layout: explanatory rejection or the same layout -/
+theorem shardedStep_init (c : Cfg) (ps : List (List Nat)) (L : ShardedLayout) (hq : c.quant2 = false)
+    (hpos : ∀ d ∈ ps.flatMap (statDims c), 0 < d) (h : shardedInit c ps = .ok L) :
+    shardedStep c ps L =
+      (match rootReject c (globalDims c ps).2 .update with
+       | some e => .error e
+       | none => .ok L) := by
+  unfold shardedInit at h
+  simp only [bind, Except.bind] at h
+  cases hv : validate c with
+  | error e => simp [hv] at h
+  | ok u =>
+    simp only [hv] at h
+    have hbound := le_globalDims c ps
+    have hsum := sumSizes_locals c ps 0
+    have hglob : (globalDims c ps).1 =
+        (if (ps.flatMap (statDims c)).length = 0 then c.ndev
+         else (ps.flatMap (statDims c)).length + negMod (ps.flatMap (statDims c)).length c.ndev) := by
+      unfold globalDims
+      simp only []
+      generalize ps.flatMap (statDims c) = dims at hpos ⊢
+      by_cases hnil : dims = []
+      · subst hnil; simp [maxList]
+      · have hm : maxList dims ≠ 0 := fun h => hnil ((maxList_eq_zero_iff hpos).mp h)
+        have hl : dims.length ≠ 0 := fun h => hnil (List.length_eq_zero_iff.mp h)
+        rw [if_neg hm, if_neg hl]
+    cases hgd : globalDims c ps with
+    | mk n ms =>
+      simp only [hgd] at h hbound hglob ⊢
+      by_cases hr : c.compRank ≠ 0 ∧ c.r + 2 ≥ ms
+      · simp [hr] at h
+      · simp only [hr, if_false, pure, Except.pure, Except.ok.injEq] at h
+        subst h
+        have hloc : ((ps.zip (indexStarts c ps 0)).map fun x => localOf c x.1 x.2) = localsOf c ps 0 := rfl
+        unfold shardedStep
+        simp only [hloc, localsOf_length, ne_eq, not_true_eq_false, if_false, f32Leaf, List.drop_succ_cons,
+          List.drop_zero, List.headD_cons]
+        cases hrr : rootReject c ms .update with
+        | some e => rfl
+        | none =>
+          simp only [mapE_locals c ms hq ps 0 hbound, hsum, ← hglob, not_true_eq_false, if_false]
+
+
 end PrecondVerif.Layout
